@@ -121,6 +121,7 @@ func executeFlipRetry(t *testing.T, prop string, seed uint64, p *FlipPlan) *core
 	aborted, passed := 0, 0
 	mut := make([]byte, len(rec2))
 	for bit := lo; bit < hi; bit++ {
+		core.Beat()
 		copy(mut, rec2)
 		mut[bit/8] ^= 1 << (bit % 8)
 		got, rerr, pk := try(mut)
@@ -233,6 +234,7 @@ func executeFlip(t *testing.T, prop string, seed uint64, p *FlipPlan) *core.Resu
 	}
 	mut := make([]byte, len(rec))
 	for bit := lo; bit < hi; bit++ {
+		core.Beat()
 		copy(mut, rec)
 		mut[bit/8] ^= 1 << (bit % 8)
 		o, _ := runScript(keys, mut, nil, 0)
